@@ -535,3 +535,174 @@ Proof.
     eapply toks_app; [exact HT|]. econstructor; [|constructor].
     unfold line_tail. now apply tok_eol_rol.
 Qed.
+
+(* ------------------------------------------------------------------ *)
+(* the last line of a text that does not end with a line break         *)
+(* ------------------------------------------------------------------ *)
+
+Lemma steps_end_fuel a b : Steps a b ->
+  forall txt st cd cdv t s c v r s', a = (txt, st, cd, cdv) -> b = (t, s, c, v) ->
+  step t s c v = RetEnd r s' -> exists f, lex_loop f txt st cd cdv = LEnd r s'.
+Proof.
+  induction 1 as [x|txt0 st0 cd0 cdv0 t0 s0 c0 v0 c' Hs Hst IH];
+    intros txt st cd cdv t s c v r s' Ea Eb Hr.
+  - subst. inversion Eb; subst. exists 1%nat. cbn [lex_loop]. now rewrite Hr.
+  - inversion Ea; subst.
+    destruct (IH _ _ _ _ _ _ _ _ _ _ eq_refl eq_refl Hr) as [f Hf].
+    exists (S f). cbn [lex_loop]. now rewrite Hs.
+Qed.
+
+Lemma end_of_steps txt st t s c v r s' :
+  Steps (txt, st, None, None) (t, s, c, v) -> step t s c v = RetEnd r s' ->
+  next_token_nocap txt st = LEnd r s'.
+Proof.
+  intros H1 H2. destruct (steps_end_fuel _ _ H1 _ _ _ _ _ _ _ _ _ _ eq_refl eq_refl H2) as [f Hf].
+  unfold next_token_nocap. rewrite <- Hf. apply lex_loop_fuel_indep.
+  - apply next_token_nocap_total.
+  - rewrite Hf. discriminate.
+Qed.
+
+Definition is_end (r : lres) : Prop := match r with LEnd _ _ => True | _ => False end.
+
+Lemma end_rol g cm : forallb blank g = true -> comment_ok cm = true ->
+  is_end (next_token_nocap (g ++ render_comment cm) SRestOfLine).
+Proof.
+  intros Hg Hc. destruct cm as [t|]; cbn [render_comment comment_ok] in *.
+  - assert (E : next_token_nocap (g ++ 59 :: t) SRestOfLine = LEnd [] SEOF).
+    { eapply end_of_steps.
+      - eapply steps_trans; [apply steps_blanks; exact Hg|].
+        eapply steps_cons; [reflexivity|]. eapply steps_cons; [reflexivity|].
+        rewrite <- (app_nil_r t). eapply steps_trans; [apply steps_comment_text; exact Hc|].
+        apply steps_one. reflexivity.
+      - reflexivity. }
+    rewrite E. exact I.
+  - rewrite app_nil_r.
+    assert (E : next_token_nocap g SRestOfLine = LEnd [] SEOF).
+    { eapply end_of_steps.
+      - rewrite <- (app_nil_r g). eapply steps_trans; [apply steps_blanks; exact Hg|].
+        apply steps_one. reflexivity.
+      - reflexivity. }
+    rewrite E. exact I.
+Qed.
+
+Lemma end_start cm : comment_ok cm = true -> is_end (next_token_nocap (render_comment cm) SStartLine).
+Proof.
+  intros Hc. destruct cm as [t|]; cbn [render_comment].
+  - pose proof (end_rol [] (Some t) eq_refl Hc) as E. cbn [app render_comment] in E.
+    destruct (next_token_nocap (59 :: t) SRestOfLine) eqn:R; try contradiction.
+    rewrite (startline_nonblank 59 t _ eq_refl R); [exact I|discriminate].
+  - exact I.
+Qed.
+
+Lemma end_eof : is_end (next_token_nocap [] SEOF).
+Proof. exact I. Qed.
+
+Lemma tok_word_eof g w : forallb blank g = true -> word_ok w = true ->
+  next_token_nocap (g ++ w) SRestOfLine = LTok (TChar w) [] SEOF.
+Proof.
+  intros Hg Hw. destruct (word_ok_inv w Hw) as (c & r & -> & Hall & H64 & H36).
+  pose proof Hall as Hw'. cbn [forallb] in Hw'. apply andb_true_iff in Hw' as [Hc _].
+  eapply tok_of_steps.
+  - eapply steps_trans; [apply steps_blanks; exact Hg|].
+    eapply steps_cons; [apply step_rol_word; assumption|].
+    rewrite <- (app_nil_r (c :: r)). apply steps_word_chars. exact Hall.
+  - reflexivity.
+Qed.
+
+(* where the lexer stands after the items of a line: before the tail, or at the very end *)
+Definition tail_ok (tail : str) : Prop :=
+  tail = [] \/ exists c t, tail = c :: t /\ wend c = true /\ is_upper c = false.
+
+Definition ends_ok (rem : str) (st : lst) (tail : str) : Prop :=
+  (st = SRestOfLine /\ exists g1, forallb blank g1 = true /\ rem = g1 ++ tail) \/
+  (tail = [] /\ rem = [] /\ st = SEOF).
+
+Lemma toks_items_gen : forall its g0 tail,
+  forallb blank g0 = true -> items_ok its = true -> tail_ok tail ->
+  exists rem st, Toks next_token_nocap (g0 ++ render_items its ++ tail) SRestOfLine
+                      (map (fun ig => item_tok (fst ig)) its) rem st /\ ends_ok rem st tail.
+Proof.
+  induction its as [|[i g] its IH]; intros g0 tail Hg0 Hok Ht.
+  - exists (g0 ++ tail), SRestOfLine. split; [constructor|]. left. split; [reflexivity|]. now exists g0.
+  - cbn [items_ok] in Hok. apply andb_true_iff in Hok as [Hok Hrest].
+    apply andb_true_iff in Hok as [Hok Hsep]. apply andb_true_iff in Hok as [Hi Hg].
+    cbn [render_items flat_map map fst snd]. fold (render_items its). rewrite <- !app_assoc.
+    (* the special case: a word that runs to the end of the text *)
+    destruct its as [|[i2 g2] its2].
+    + cbn [render_items flat_map app map].
+      destruct g as [|b g'].
+      * cbn [app]. destruct Ht as [->|(c & t & -> & H1 & H2)].
+        -- rewrite app_nil_r.
+           destruct i as [w|s| |d|ws close].
+           ++ exists [], SEOF. split; [|right; auto].
+              econstructor; [apply tok_word_eof; assumption|constructor].
+           ++ exists [], SRestOfLine. split; [|left; split; [reflexivity|exists []; auto]].
+              econstructor; [|constructor]. rewrite <- (app_nil_r (render_item (IQuoted s))).
+              apply tok_item_rol; auto. exact I.
+           ++ exists [], SRestOfLine. split; [|left; split; [reflexivity|exists []; auto]].
+              econstructor; [|constructor]. rewrite <- (app_nil_r (render_item IAt)).
+              apply tok_item_rol; auto. exact I.
+           ++ exists [], SRestOfLine. split; [|left; split; [reflexivity|exists []; auto]].
+              econstructor; [|constructor]. rewrite <- (app_nil_r (render_item (IDir d))).
+              apply tok_item_rol; auto. exact I.
+           ++ exists [], SRestOfLine. split; [|left; split; [reflexivity|exists []; auto]].
+              econstructor; [|constructor]. rewrite <- (app_nil_r (render_item (IGroup ws close))).
+              apply tok_item_rol; auto. exact I.
+        -- exists (c :: t), SRestOfLine. split; [|left; split; [reflexivity|exists []; auto]].
+           econstructor; [|constructor]. apply tok_item_rol; auto. now apply follows_of_head.
+      * cbn [forallb] in Hg. pose proof Hg as Hg'. apply andb_true_iff in Hg' as [Hb _].
+        destruct (blank_head_facts b Hb).
+        exists ((b :: g') ++ tail), SRestOfLine. split; [|left; split; [reflexivity|now exists (b :: g')]].
+        econstructor; [|constructor]. apply tok_item_rol; auto. cbn [app]. now apply follows_of_head.
+    + destruct (IH g tail Hg Hrest Ht) as (rem & st & HT & HE).
+      exists rem, st. split; [|exact HE].
+      econstructor; [|exact HT].
+      apply tok_item_rol; [exact Hg0|exact Hi|].
+      destruct g as [|b g'].
+      * cbn [app]. rewrite orb_false_r in Hsep. apply negb_true_iff in Hsep.
+        destruct i; cbn [needs_sep] in Hsep; try discriminate; exact I.
+      * cbn [forallb] in Hg. apply andb_true_iff in Hg as [Hb _].
+        destruct (blank_head_facts b Hb). cbn [app]. now apply follows_of_head.
+Qed.
+
+Lemma ends_ok_end rem st cm : ends_ok rem st (render_comment cm) -> comment_ok cm = true ->
+  is_end (next_token_nocap rem st).
+Proof.
+  intros [(-> & g1 & Hg & ->)|(_ & -> & ->)] Hc; [now apply end_rol|exact I].
+Qed.
+
+Lemma comment_tail_ok cm : tail_ok (render_comment cm).
+Proof. destruct cm as [t|]; [right; exists 59, t; repeat split|left; reflexivity]. Qed.
+
+(* the unterminated last line: its tokens, then the end of the input *)
+Theorem toks_last_line l : line_noeol_ok l = true ->
+  exists rem st, Toks next_token_nocap (render_noeol l) SStartLine (line_tokens_noeol l) rem st /\
+                 is_end (next_token_nocap rem st).
+Proof.
+  destruct l as [lead its cm e]. unfold line_noeol_ok, render_noeol, line_tokens_noeol.
+  cbn [l_lead l_items l_comment].
+  intros H. apply andb_true_iff in H as [H Hc]. apply andb_true_iff in H as [Hl Hi].
+  destruct lead as [|b lead'].
+  - cbn [app]. destruct its as [|[i g] its'].
+    + cbn [render_items flat_map map app]. exists (render_comment cm), SStartLine.
+      split; [constructor|now apply end_start].
+    + (* first item at column 0: the first call behaves as from RestOfLine *)
+      destruct (toks_items_gen ((i, g) :: its') [] (render_comment cm) eq_refl Hi (comment_tail_ok cm))
+        as (rem & st & HT & HE).
+      exists rem, st. split; [|eapply ends_ok_end; eauto].
+      cbn [app] in HT.
+      assert (ET : render_items ((i, g) :: its') ++ render_comment cm =
+                   render_item i ++ (g ++ render_items its' ++ render_comment cm)).
+      { cbn [render_items flat_map fst snd]. now rewrite <- !app_assoc. }
+      cbn [items_ok] in Hi. apply andb_true_iff in Hi as [Hi0 _]. apply andb_true_iff in Hi0 as [Hi0 _].
+      apply andb_true_iff in Hi0 as [Hit _].
+      destruct (item_head i (g ++ render_items its' ++ render_comment cm) Hit) as (c & t & E & Hws).
+      rewrite ET, E in *.
+      inversion HT as [|? ? t0 txt1 st1 ts ? ? Hfirst Hrest]; subst.
+      econstructor; [|exact Hrest].
+      apply startline_nonblank; [exact Hws|exact Hfirst|discriminate].
+  - cbn [forallb] in Hl. apply andb_true_iff in Hl as [Hb Hl'].
+    destruct (toks_items_gen its lead' (render_comment cm) Hl' Hi (comment_tail_ok cm)) as (rem & st & HT & HE).
+    exists rem, st. split; [|eapply ends_ok_end; eauto].
+    cbn [app]. econstructor; [apply tok_blank; exact Hb|exact HT].
+Qed.
